@@ -16,7 +16,7 @@ from vlib import build, common
 
 JOB_HISTORIES = {"quick": 125, "thorough": 2500}
 TOTAL = {"quick": 2000, "thorough": 400000}
-MAX_SHRINKS = 72
+MAX_SHRINKS = {"quick": 72, "thorough": 200}
 CHUNK = 125
 
 
@@ -186,7 +186,7 @@ def run(tier, args):
             rep = c["report"]
             if rep:
                 top = next((f for f in rep["frames"] if "asmjit" in f and "drv_reuse" not in f), rep["frames"][0] if rep["frames"] else "?")
-                key = "sanitizer:%s:%s" % (rep["kind"].split(" on ")[0][:50], top.split("(")[0][:80])
+                key = "sanitizer:%s:%s" % (re.sub(r"0x[0-9a-fA-F]+", "0x?", rep["kind"].split(" on ")[0])[:60], top.split("(")[0][:80])
                 what = "%s %s" % (rep["kind"], rep["frames"][:6])
             elif c["rc"] in (-14, 142):
                 key, what = "hang", "history did not finish (SIGALRM watchdog inside the driver)"
@@ -209,9 +209,14 @@ def run(tier, args):
     todo = []
     if "leak" in by_key:
         todo += by_key["leak"][:64]
+    for key in order:
+        if key.startswith("state:"):
+            todo += by_key[key][:2]
     for rnd in range(2):
         for key in order:
-            if key != "leak" and len(by_key[key]) > rnd and len(todo) < MAX_SHRINKS + (64 if "leak" in by_key else 0):
+            if key.startswith("state:"):
+                continue
+            if key != "leak" and len(by_key[key]) > rnd and len(todo) < MAX_SHRINKS[tier] + (64 if "leak" in by_key else 0):
                 todo.append(by_key[key][rnd])
     not_examined = sorted(k for k in by_key if not any(a[0] == k for a in todo))
     if not_examined:
